@@ -1621,7 +1621,7 @@ pub fn run(run: &Run) {
         }
     });
     run.section_exhaustive("identity-table", true, "10 SAN lists (documented examples, empty, DNS only, IP only, mixed, duplicates, non-ASCII, odd) x 17 validity settings covering every builder path");
-    prop_search(run, Search { check: "identity", cases: run.tier.pick(4_000, 40_000), workers, max_shrink_iters: 300 }, id_strategy, run_identity, |c| serde_json::to_value(c).unwrap());
+    prop_search(run, Search { check: "identity", cases: run.tier.pick(12_000, 80_000), workers, max_shrink_iters: 300 }, id_strategy, run_identity, |c| serde_json::to_value(c).unwrap());
 
     // PEM round trip: full table chain length x key x layout, then random
     let pem_table: Vec<PemCase> = (0..=5usize).flat_map(|n| (0..3u8).flat_map(move |key| (0..5u8).map(move |layout| PemCase { chain: (0..n).map(|i| ((i * 5 + n + key as usize * 3 + layout as usize) % 14) as u8).collect(), key, layout, certs_der: vec![], key_der: None }))).collect();
@@ -1632,7 +1632,7 @@ pub fn run(run: &Run) {
         }
     });
     run.section_exhaustive("pem-table", true, "chain length 0..=5 x key algorithm x 5 file layouts");
-    prop_search(run, Search { check: "pem-roundtrip", cases: run.tier.pick(1_000, 10_000), workers, max_shrink_iters: 200 }, pem_strategy, run_pem, |c| c.saved());
+    prop_search(run, Search { check: "pem-roundtrip", cases: run.tier.pick(4_000, 30_000), workers, max_shrink_iters: 200 }, pem_strategy, run_pem, |c| c.saved());
     record(run, "pem-sec1", json!({"key": "pool key 0 as SEC1"}), 1, harness_guard(to_outcome(vcore::catch(test_sec1_roundtrip), true)));
 
     // corrupt PEM: cut a two-certificate file at every byte, drop each END line, then random
@@ -1731,7 +1731,7 @@ pub fn run(run: &Run) {
         record(run, "digest-table", json!({ "bytes": b }), vcore::hash64(&b), run_digest(&b));
     }
     run.section_exhaustive("digest-table", true, "every byte value at every position (32 x 256) plus constant / ramp digests");
-    prop_search(run, Search { check: "digest-random", cases: run.tier.pick(10_000, 100_000), workers, max_shrink_iters: 500 }, digest_strategy, run_digest, |b| json!({ "bytes": b }));
+    prop_search(run, Search { check: "digest-random", cases: run.tier.pick(60_000, 600_000), workers, max_shrink_iters: 500 }, digest_strategy, run_digest, |b| json!({ "bytes": b }));
     let mut bad: Vec<BadDigestCase> = Vec::new();
     for hex in [false, true] {
         for n in 0..41u8 {
@@ -1758,7 +1758,7 @@ pub fn run(run: &Run) {
         record(run, "digest-malformed-table", serde_json::to_value(c).unwrap(), vcore::hash64(c), run_bad_digest(c));
     }
     run.section_exhaustive("digest-malformed-table", true, "both formats x {element counts 0..=40 except 32, out-of-range values at first/middle/last position, every junk element, negative element, every foreign separator, fixed junk texts}");
-    prop_search(run, Search { check: "digest-malformed", cases: run.tier.pick(6_000, 60_000), workers, max_shrink_iters: 500 }, bad_digest_strategy, run_bad_digest, |c| serde_json::to_value(c).unwrap());
+    prop_search(run, Search { check: "digest-malformed", cases: run.tier.pick(40_000, 400_000), workers, max_shrink_iters: 500 }, bad_digest_strategy, run_bad_digest, |c| serde_json::to_value(c).unwrap());
 
     run.extra("observations", observations());
     for l in [
